@@ -259,7 +259,7 @@ def run(rep, tier, only=None):
                   "leaves": "u64|i64 and usize|isize (first letter symbolic), (A, B)", "positions": POSITIONS, "skip_markers": SKIPS,
                   "enums": "1..%d variants x {unit,newtype,struct,tuple2} x {no skip, serde(skip), typeshare(skip)} x tag x content" % (2 if tier == "quick" else 3),
                   "consts": [c[0] for c in CONSTS]}
-    rep.outside = ["process exit code and the write path of the CLI (decided on the MIR of cli::generate_types in the CLI checks)", "constructs not listed"]
+    rep.outside = ["the directory walk and configuration loading of the CLI (the error -> no-write implication is decided on the CFG of cli generate_types, check_parse_errors and the collector fold)", "constructs not listed"]
     rep.assumptions = ["source text -> syn AST is done by the real syn (tools/astdump); ASTs are then executed from MIR",
                        "oracle: documented rules (README / docs/src/usage) restated independently of the parser"]
     kinds_reported = set()
@@ -323,11 +323,17 @@ def run(rep, tier, only=None):
                 rep.sample({"source": r["src"], "oracle": oracle_b(case)[0], "verdict": "matches"})
         rep.harnesses["structural cases"] = len(bc)
     nat.close()
+    if not only or "cli" in only:
+        from checks.c08cli import run_cli_half
+        run_cli_half(rep, tier)
     rep.extra["explore_s"] = round(time.time() - t0, 1)
 
 
 def replay(case):
     c = case["case"]
+    if c.get("cli"):
+        from checks.c08cli import replay_cli
+        return replay_cli()
     rep = Replayer()
     got, raw = native_check(rep, c["source"], c["expect_error"])
     rep.close()
